@@ -1955,6 +1955,10 @@ func opcodeCheckSig(op *ParsedOpcode, t *thread) error {
 	// least 1 byte is needed for the hash type below.  The full length is
 	// checked depending on the script flags and upon parsing the signature.
 	if len(fullSigBytes) < 1 {
+		// an empty signature is validly encoded; the public key encoding is still checked
+		if err = t.checkPubKeyEncoding(pkBytes); err != nil {
+			return err
+		}
 		t.dstack.PushBool(false)
 		return nil
 	}
@@ -2204,6 +2208,10 @@ func opcodeCheckMultiSig(op *ParsedOpcode, t *thread) error {
 
 		rawSig := sigInfo.signature
 		if len(rawSig) == 0 {
+			// an empty signature is validly encoded; the public key encoding is still checked
+			if err := t.checkPubKeyEncoding(pubKey); err != nil {
+				return err
+			}
 			// Skip to the next pubkey if signature is empty.
 			continue
 		}
@@ -2221,7 +2229,15 @@ func opcodeCheckMultiSig(op *ParsedOpcode, t *thread) error {
 			if err := t.checkSignatureEncoding(signature); err != nil {
 				return err
 			}
+		}
 
+		// the public key encoding is checked for every signature / key pair compared,
+		// whether or not the signature then parses
+		if err := t.checkPubKeyEncoding(pubKey); err != nil {
+			return err
+		}
+
+		if !sigInfo.parsed {
 			// Parse the signature.
 			var err error
 			if t.hasAny(scriptflag.VerifyStrictEncoding, scriptflag.VerifyDERSignatures) {
@@ -2244,10 +2260,6 @@ func opcodeCheckMultiSig(op *ParsedOpcode, t *thread) error {
 
 			// Use the already parsed signature.
 			parsedSig = sigInfo.parsedSignature
-		}
-
-		if err := t.checkPubKeyEncoding(pubKey); err != nil {
-			return err
 		}
 
 		// Parse the pubkey.
